@@ -228,7 +228,7 @@ fn exec(c: &Case, ps: &[Parent], rep: &mut Report) -> Option<(Value, String)> {
             let mut pairs = Vec::new();
             for k in 0..2 {
                 let name = format!("k{k}");
-                let o = cli::run(&exe, dir, ["keygen", &name, "-s", seed], None);
+                let o = cli::run(&exe, dir, ["keygen", &name, &format!("--seed={seed}")], None);
                 rep.transitions += 1;
                 if !o.status.success() {
                     return Some((json!({"kind": "keygen_fails"}), String::from_utf8_lossy(&o.stderr).to_string()));
@@ -309,7 +309,7 @@ pub fn run(started: Instant) -> i32 {
     }
     let ps = parents();
     let mut cases = Vec::new();
-    for s in ["", "a", "é☠", "TESTSEED", "TESTSEED2", "seed with spaces and = signs"] {
+    for s in ["", "a", "é☠", "TESTSEED", "TESTSEED2", "seed with spaces and = signs", "a,b", " ", "-x"] {
         cases.push(Case::Keygen(s.to_string()));
     }
     cases.push(Case::Keygen("s".repeat(4096)));
